@@ -40,6 +40,9 @@ var propMeta = map[string]propInfo{
 	"C13": {Pkg: "sasl", Level: "exploration", QuickRuns: 20000, QuickBudgetS: 20,
 		Rule:  "one evaluation = one run: a request byte string (field lengths from {0,1,2,7,255,256,257,300,65535}, every truncation of valid messages, arbitrary and mutated bytes) decoded under 3-6 read schedules (all at once, 1-byte reads, random fragments with zero-length reads and data returned with EOF) and compared with the reference decoder; encoder bytes, limits, round trip, re-encoding of the consumed prefix; responses likewise; distinct non-trivial = distinct inputs",
 		Real:  []string{"sasl/sasl_encoding.go (unmodified)", "bufio.Scanner"}, Stub: []string{"io.Reader -> scripted reader whose fragmentation is chosen by the tape"}, Assumptions: []string{"format and round-trip clauses are input-determined; the simulator contributes the read schedule"}},
+	"C20": {Pkg: "pam", Level: "exploration", QuickRuns: 400000, QuickBudgetS: 20,
+		Rule:  "one evaluation = one simulated pam_sm_authenticate call: user/password lengths from {0,1,5,255,256,257,300,4096}, option combinations, PAM stack behaviours, and a scripted agent (14 reply texts x padding up to 65000 x declared-length faults x cut replies, fragmented with delays on both sides of the timeout, reply before/after/never, early close, reset, agent not reading, EPIPE) over a fault-injecting syscall layer (EINTR, short reads/writes, stale and ambient errno); a third of the runs are fault-free; distinct non-trivial = distinct decision vectors of runs in which request bytes were exchanged",
+		Real:  []string{"pam/pam_whawty.c compiled unmodified (clang -fsanitize=address,undefined)"}, Stub: []string{"libpam (pam_get_user, pam_get_item, pam_set_item, pam_prompt, pam_vsyslog) -> driver.c", "socket/connect/select/read/write/close -> discrete-event syscall simulator (macro redirection via -include shim.h)", "the agent -> scripted reply bytes with timing"}, Assumptions: []string{"not injected: permanent failure of select(), descriptor numbers >= FD_SETSIZE", "stub PAM headers carry Linux-PAM's constants and the two _pam_macros.h macros the module uses"}},
 	"C08": {Pkg: "store", Level: "fault_enumeration", QuickRuns: 400, QuickBudgetS: 40,
 		Rule:  "one evaluation = one crash point: for a generated scenario (store with 1-4 reference-written users, aux data of every shape, one init/add/update) EVERY simfs operation boundary of the call and three prefixes inside every write is a crash point; at each, the process-kill image and the power-loss images (all of them when <= limit, else DFS prefix + sampled) are opened with a fresh store and judged by the recovery oracle; distinct non-trivial = distinct (configuration, operation, population, aux size) scenarios swept",
 		Real:  realL, Stub: stubsL, Assumptions: assumeL},
